@@ -416,6 +416,14 @@ func RunRounds(w *tr.Writer, in *tr.Interner, st *RStats, tid int, h RHist) {
 				continue
 			}
 			res := Guard(func() string {
+				// the two entry points of a merge: the child trie itself, or the change set taken from it
+				if (op.T+len(r.tries))%2 == 0 {
+					newRoot, changes, deletes, startRoot := t.trie.GetChanges()
+					if err := parent.trie.MergeChanges(newRoot, changes, deletes, startRoot); err != nil {
+						return "rejected"
+					}
+					return "ok"
+				}
 				if err := parent.trie.MergeMPTChanges(t.trie); err != nil {
 					return "rejected"
 				}
